@@ -31,7 +31,7 @@ func (p *pb) add(pre string, idx int) int {
 		switch f[0] {
 		case "new":
 			p.ntens++
-		case "slice", "mat":
+		case "slice", "mat", "clone":
 			f[1] = fmt.Sprint(atoi(f[1]) + off)
 			p.ntens++
 		case "T":
